@@ -554,10 +554,166 @@ fn render_handle_unit<F: Backend + fidget_core::render::RenderHints>(cx: &mut Cx
     }
 }
 
+/// Shape-level evaluators (ShapeTracingEval / ShapeBulkEval keep scratch of
+/// their own): every sequence of (shape, batch size, transform?) uses through
+/// ONE evaluator per kind, compared with a fresh evaluator
+fn shape_eval_unit<F: Backend>(cx: &mut Cx, sub: &mut u64, depth: usize) {
+    use fidget_core::shape::{EzShape, ShapeVars};
+    // shapes with 1, 3, 5 and 2 variables (free variables Var(4), Var(5))
+    let mk = |f: &dyn Fn(&mut Prog) -> usize| {
+        let mut p = Prog::default();
+        let r = f(&mut p);
+        p.roots = vec![r];
+        p
+    };
+    let progs: Vec<(&str, Prog)> = vec![
+        ("x", mk(&|p| p.push(POp::Var(0)))),
+        ("x+y+z", mk(&|p| {
+            let (x, y, z) = (p.push(POp::Var(0)), p.push(POp::Var(1)), p.push(POp::Var(2)));
+            let a = p.push(POp::Bin(B::Add, x, y));
+            p.push(POp::Bin(B::Add, a, z))
+        })),
+        ("(x+y+z)+a*b", mk(&|p| {
+            let (x, y, z) = (p.push(POp::Var(0)), p.push(POp::Var(1)), p.push(POp::Var(2)));
+            let (a, b) = (p.push(POp::Var(4)), p.push(POp::Var(5)));
+            let s = p.push(POp::Bin(B::Add, x, y));
+            let s = p.push(POp::Bin(B::Add, s, z));
+            let m = p.push(POp::Bin(B::Mul, a, b));
+            p.push(POp::Bin(B::Add, s, m))
+        })),
+        ("x*b", mk(&|p| {
+            let (x, b) = (p.push(POp::Var(0)), p.push(POp::Var(5)));
+            p.push(POp::Bin(B::Mul, x, b))
+        })),
+    ];
+    let shapes: Vec<Shape<F>> = progs
+        .iter()
+        .filter_map(|(_, p)| {
+            let mut ctx = Context::new();
+            let roots = p.build(&mut ctx);
+            evalkit::build::<F>(&ctx, &roots).ok().map(Shape::new_raw)
+        })
+        .collect();
+    if shapes.len() != progs.len() {
+        return;
+    }
+    let mut vars = ShapeVars::<f32>::new();
+    for (i, v) in [(4usize, 1.5f32), (5, -0.75), (3, 9.0)] {
+        if let fidget_core::var::Var::V(ix) = crate::prog::var_by_index(i) {
+            vars.insert(ix, v);
+        }
+    }
+    let sizes = [1usize, 4, 8, 13];
+    let mat = nalgebra::Matrix4::new_translation(&nalgebra::Vector3::new(0.5, -1.0, 0.25)) * nalgebra::Matrix4::new_scaling(2.0);
+    // a use = (shape, size index, with transform?)
+    let uses: Vec<(usize, usize, bool)> = (0..shapes.len()).flat_map(|s| (0..sizes.len()).flat_map(move |n| [false, true].map(move |t| (s, n, t)))).collect();
+    let xs = |n: usize| -> (Vec<f32>, Vec<f32>, Vec<f32>) {
+        ((0..n).map(|i| 0.25 * i as f32 - 1.0).collect(), (0..n).map(|i| 0.5 - 0.125 * i as f32).collect(), (0..n).map(|i| 0.75 * (i % 3) as f32).collect())
+    };
+    for kind in 0..4usize {
+        let mut seqs: Vec<Vec<usize>> = vec![vec![]];
+        for _ in 0..depth {
+            seqs = seqs.into_iter().flat_map(|q| (0..uses.len()).map(move |u| { let mut r = q.clone(); r.push(u); r })).collect();
+        }
+        // tracing evaluators take one sample: only the first size is used
+        for seq in seqs {
+            if kind >= 2 && seq.iter().any(|u| uses[*u].1 != 0) {
+                continue;
+            }
+            let s = *sub;
+            *sub += 1;
+            if !cx.case(s) {
+                continue;
+            }
+            cx.add("cases", 1);
+            cx.add("shape_evaluator_sequences", 1);
+            let kname = ["float-slice", "grad-slice", "point", "interval"][kind];
+            let desc = || json!({"backend": F::NAME, "shape_evaluator": kname,
+                "sequence": seq.iter().map(|u| format!("{} on {} samples{}", progs[uses[*u].0].0, sizes[uses[*u].1], if uses[*u].2 { " with transform" } else { "" })).collect::<Vec<_>>()});
+            let r = guard(|| -> Option<String> {
+                let mut fe = Shape::<F>::new_float_slice_eval();
+                let mut ge = Shape::<F>::new_grad_slice_eval();
+                let mut pe = Shape::<F>::new_point_eval();
+                let mut ie = Shape::<F>::new_interval_eval();
+                for (step, u) in seq.iter().enumerate() {
+                    let (si, ni, tr) = uses[*u];
+                    let sh = &shapes[si];
+                    let n = sizes[ni];
+                    let (x, y, z) = xs(n);
+                    let m = if tr { Some(&mat) } else { None };
+                    let run = |fe: &mut fidget_core::shape::ShapeBulkEval<F::FloatSliceEval>,
+                               ge: &mut fidget_core::shape::ShapeBulkEval<F::GradSliceEval>,
+                               pe: &mut fidget_core::shape::ShapeTracingEval<F::PointEval>,
+                               ie: &mut fidget_core::shape::ShapeTracingEval<F::IntervalEval>|
+                     -> Result<Vec<u32>, String> {
+                        match kind {
+                            0 => {
+                                let t = sh.ez_float_slice_tape();
+                                let o = match m {
+                                    Some(m) => fe.eval_with_transform_and_vars(&t, &x, &y, &z, m, &vars),
+                                    None => fe.eval_with_vars(&t, &x, &y, &z, &vars),
+                                };
+                                o.map(|o| o.iter().map(|v| v.to_bits()).collect()).map_err(|e| format!("{e}"))
+                            }
+                            1 => {
+                                let t = sh.ez_grad_slice_tape();
+                                let gx: Vec<Grad> = x.iter().map(|v| Grad::new(*v, 1.0, 0.0, 0.0)).collect();
+                                let gy: Vec<Grad> = y.iter().map(|v| Grad::new(*v, 0.0, 1.0, 0.0)).collect();
+                                let gz: Vec<Grad> = z.iter().map(|v| Grad::new(*v, 0.0, 0.0, 1.0)).collect();
+                                let o = match m {
+                                    Some(m) => ge.eval_with_transform_and_vars(&t, &gx, &gy, &gz, m, &vars),
+                                    None => ge.eval_with_vars(&t, &gx, &gy, &gz, &vars),
+                                };
+                                o.map(|o| o.iter().flat_map(|g| [g.v.to_bits(), g.dx.to_bits(), g.dy.to_bits(), g.dz.to_bits()]).collect()).map_err(|e| format!("{e}"))
+                            }
+                            2 => {
+                                let t = sh.ez_point_tape();
+                                let o = match m {
+                                    Some(m) => pe.eval_with_transform_and_vars(&t, x[0], y[0], z[0], m, &vars),
+                                    None => pe.eval_with_vars(&t, x[0], y[0], z[0], &vars),
+                                };
+                                o.map(|(v, _)| vec![v.to_bits()]).map_err(|e| format!("{e}"))
+                            }
+                            _ => {
+                                let t = sh.ez_interval_tape();
+                                let b = |v: f32| Interval::new(v - 0.25, v + 0.5);
+                                let o = match m {
+                                    Some(m) => ie.eval_with_transform_and_vars(&t, b(x[0]), b(y[0]), b(z[0]), m, &vars),
+                                    None => ie.eval_with_vars(&t, b(x[0]), b(y[0]), b(z[0]), &vars),
+                                };
+                                o.map(|(v, _)| vec![v.lower().to_bits(), v.upper().to_bits()]).map_err(|e| format!("{e}"))
+                            }
+                        }
+                    };
+                    let got = run(&mut fe, &mut ge, &mut pe, &mut ie);
+                    let want = run(
+                        &mut Shape::<F>::new_float_slice_eval(),
+                        &mut Shape::<F>::new_grad_slice_eval(),
+                        &mut Shape::<F>::new_point_eval(),
+                        &mut Shape::<F>::new_interval_eval(),
+                    );
+                    if got != want {
+                        return Some(format!("step {step}: reused evaluator gives {:?}, a fresh one {:?}", got.map(|v| v.len()), want.map(|v| v.len())));
+                    }
+                }
+                None
+            });
+            cx.add("evals", seq.len() as u64 * 2);
+            cx.add("nontrivial", 1);
+            match r {
+                Ok(None) => (),
+                Ok(Some(m)) => cx.violation(format!("{} shape-level {kname} evaluator reuse changed a result", F::NAME), desc(), m),
+                Err(e) => cx.violation(format!("{} shape-level {kname} evaluator reuse panicked {}", F::NAME, panic_site(&e)), desc(), e),
+            }
+        }
+    }
+}
+
 #[derive(Clone, Debug)]
 enum Unit {
     Seq { backend: u8, first: usize },
     Handles { backend: u8 },
+    ShapeEvals { backend: u8 },
 }
 
 fn full_alpha_len() -> usize {
@@ -568,6 +724,7 @@ fn units(_tier: Tier) -> Vec<Unit> {
     let mut v = vec![];
     for backend in 0..3u8 {
         v.push(Unit::Handles { backend });
+        v.push(Unit::ShapeEvals { backend });
         for first in 0..full_alpha_len() {
             v.push(Unit::Seq { backend, first });
         }
@@ -613,7 +770,7 @@ impl Check for C10 {
     }
     fn meta(&self, tier: Tier) -> Meta {
         Meta {
-            rule: "case = sequence of uses executed on shared long-lived objects; function pool of 8 differently shaped functions {no choice / 2 vars; 3 vars / 2 choices; 14 live values (spills); 3 outputs incl. a constant; a free variable; zero variables; 40 choices; a HUGE one with ~1400 simultaneously live values (> 1024 spill slots at every register budget, 8400 nodes) and one choice, taking part with 3 uses}; a use = (point | interval | float-slice | grad-slice evaluation, function, one of 2 inputs with different sample counts) or (simplify function with the trace of one of 2 boxes, evaluate and recycle the child); 73 uses; EVERY sequence up to the depth bound goes through ONE evaluator per kind, ONE stack of recycled tape storage (JIT: executable mappings larger / smaller than the next code), ONE stack of recycled function storage and ONE workspace; each step's outputs, trace and (for simplify) the child's tape must equal bit-for-bit the same call on fresh objects; RenderHandle: on 3 functions (2 choices; 40 choices; a union of two clipped disks) every sequence of simplify calls over up to 5 traces discovered on grids of boxes of four sizes - up to three that shorten the function differently and up to two that do not, which makes the handle evict without caching - (cached-next hit, miss, eviction, recycle) up to the depth bound; backends VM<255>, VM<3>, JIT; no state de-duplication (storage is opaque)".into(),
+            rule: "case = sequence of uses executed on shared long-lived objects; function pool of 8 differently shaped functions {no choice / 2 vars; 3 vars / 2 choices; 14 live values (spills); 3 outputs incl. a constant; a free variable; zero variables; 40 choices; a HUGE one with ~1400 simultaneously live values (> 1024 spill slots at every register budget, 8400 nodes) and one choice, taking part with 3 uses}; a use = (point | interval | float-slice | grad-slice evaluation, function, one of 2 inputs with different sample counts) or (simplify function with the trace of one of 2 boxes, evaluate and recycle the child); 73 uses; EVERY sequence up to the depth bound goes through ONE evaluator per kind, ONE stack of recycled tape storage (JIT: executable mappings larger / smaller than the next code), ONE stack of recycled function storage and ONE workspace; each step's outputs, trace and (for simplify) the child's tape must equal bit-for-bit the same call on fresh objects; RenderHandle: on 3 functions (2 choices; 40 choices; a union of two clipped disks) every sequence of simplify calls over up to 5 traces discovered on grids of boxes of four sizes - up to three that shorten the function differently and up to two that do not, which makes the handle evict without caching - (cached-next hit, miss, eviction, recycle) up to the depth bound; Shape-level evaluators (ShapeBulkEval / ShapeTracingEval): every sequence of uses (4 shapes with 1, 3, 5, 2 variables x batch sizes {1,4,8,13} x with / without transform) up to depth 2 (thorough 3) through one evaluator per kind vs a fresh one; backends VM<255>, VM<3>, JIT; no state de-duplication (storage is opaque)".into(),
             bounds: match tier {
                 Tier::Quick => "depth 2 over all 73 uses; depth 3 over the 40 uses of the 4 most differently shaped functions; RenderHandle depth 4".into(),
                 Tier::Thorough => "depth 3 over all 73 uses; depth 4 over the 40-use sub-alphabet; RenderHandle depth 5".into(),
@@ -633,6 +790,15 @@ impl Check for C10 {
                 1 => seq_unit::<GenericVmFunction<3>>(cx, tier, first),
                 _ => seq_unit::<JitFunction>(cx, tier, first),
             },
+            Unit::ShapeEvals { backend } => {
+                let mut sub = 0u64;
+                let depth = if tier == Tier::Quick { 2 } else { 3 };
+                match backend {
+                    0 => shape_eval_unit::<VmFunction>(cx, &mut sub, depth),
+                    1 => shape_eval_unit::<GenericVmFunction<3>>(cx, &mut sub, depth),
+                    _ => shape_eval_unit::<JitFunction>(cx, &mut sub, depth),
+                }
+            }
             Unit::Handles { backend } => {
                 let mut sub = 0u64;
                 let depth = if tier == Tier::Quick { 4 } else { 5 };
